@@ -63,9 +63,10 @@ Print Assumptions C07_deadlock_free.
 (** LINEARIZABILITY.  Every execution [ls] (any interleaving, any number of
     threads and operations) from an initial configuration [c0] can be annotated
     ([lin]) with the sequential machine: at the linearization point of each
-    operation — its last access to guarded state: the publishing store of a
-    change, the load of the tree pointer of a lookup — the sequential
-    specification [seq_run] executes the WHOLE operation atomically.  Then
+    operation — the publishing store of a change; for an operation that
+    publishes nothing its last access to guarded state, e.g. the load of the
+    tree pointer of a lookup — the sequential specification [seq_run] executes
+    the WHOLE operation atomically.  Then
     - [seq_hist]: the operations in linearization-point order [lins tr] form a
       legal sequential history of the specification from the initial state;
     - [wb]: per thread the marks of [tr] come as invocation, linearization,
